@@ -28,6 +28,8 @@ func selectedFns(c *Ctx) []*ssa.Function {
 func runC12(c *Ctx) {
 	// the pool's selected methods hand the model's error to their caller
 	c.armPoolError("N7-pool-reports-the-error", func(m string) bool { return strings.HasPrefix(m, "ExecuteSelected") }, 10)
+	// ... and hand their own arguments to the engine method of the same name, each in its place
+	c.armPoolArgs("N8-pool-passes-its-arguments", func(m string) bool { return strings.HasPrefix(m, "ExecuteSelected") && !strings.HasSuffix(m, "WithSpecifiedEM") }, 10)
 
 	fns := selectedFns(c)
 	if len(fns) < 11 {
